@@ -451,6 +451,7 @@ func main() {
 	partB(targets, splitMul)
 	partC(targets, depth)
 	partD(kKey, kCust)
+	partCtorHistory(kKey, kCust)
 
 	vMu.Lock()
 	run.Set("violation_keys", vKeys)
@@ -910,9 +911,92 @@ func replayMode() {
 		if err == nil && (len(ev.UnHex(rp.Key)) < 16 || rp.Size < 0) {
 			run.Violation("kmac:invalid-parameters-accepted", "NewKMAC_128 accepted invalid parameters", rp)
 		}
+	case "ctor-history", "alias":
+		// these parts are small: re-run them whole (they report the case again if it is still there)
+		kKey := fill(400, uint64(run.Seed)+77)
+		kCust := fill(400, uint64(run.Seed)+99)
+		if rp.Kind == "ctor-history" {
+			partCtorHistory(kKey, kCust)
+		} else if t := newTarget(rp.Algo, kKey[:32], kCust[:9], 32); t != nil {
+			partAlias([]*target{t})
+		}
 	default:
 		run.Fatal("unknown replay kind %q", rp.Kind)
 	}
 	run.Sample(rp)
 	run.Finish()
+}
+
+
+// partCtorHistory: the key and customizer handed to NewKMAC_128 belong to the caller. ALL sequences of
+// three constructions over 16 (key, customizer, size) choices, every construction reading its key and
+// customizer from the SAME two buffers, which are refilled in between (same lengths, other lengths,
+// empty customizer): each new hasher computes the KMAC of the bytes its constructor was given, and the
+// hashers built earlier still compute theirs afterwards (ComputeHash and Reset/Write/SumHash).
+func partCtorHistory(kKey, kCust []byte) {
+	type choice struct {
+		key, cust []byte
+		size      int
+	}
+	var cs []choice
+	for _, k := range [][]byte{kKey[:16], kKey[100:116]} {
+		for _, c := range [][]byte{kCust[:9], kCust[50:59], kCust[70:75], {}} {
+			for _, sz := range []int{32, 128} {
+				cs = append(cs, choice{k, c, sz})
+			}
+		}
+	}
+	msg := pat1[:41]
+	want := make([][]byte, len(cs))
+	for i, c := range cs {
+		want[i] = refkeccak.KMAC128(c.key, msg, c.size, c.cust)
+	}
+	n := len(cs)
+	ev.Par(n*n, func(ab int) {
+		a, b := ab/n, ab%n
+		for c := 0; c < n; c++ {
+			seq := []int{a, b, c}
+			kbuf, cbuf := make([]byte, 16), make([]byte, 16)
+			var hs []hash.Hasher
+			bad := func(step int, what string) {
+				var d []string
+				for _, i := range seq[:step+1] {
+					d = append(d, fmt.Sprintf("(key#%d,cust %dB#%d,%d)", i/8, len(cs[i].cust), (i/2)%4, cs[i].size))
+				}
+				t := newTarget("kmac128", cs[seq[step]].key, cs[seq[step]].cust, cs[seq[step]].size)
+				noteViolation("kmac128:constructor-history", t)
+				run.Violation("kmac128:constructor-keeps-a-reference-to-the-callers-key-or-customizer", fmt.Sprintf("NewKMAC_128 called %d times with key and customizer read from two reused buffers %v: %s", step+1, d, what),
+					replayJSON{Kind: "ctor-history", Algo: "kmac128", Ops: []opJSON{{fmt.Sprint(seq), step, ""}}})
+			}
+			for step, i := range seq {
+				copy(kbuf, cs[i].key)
+				copy(cbuf, cs[i].cust)
+				h, err := hash.NewKMAC_128(kbuf[:16], cbuf[:len(cs[i].cust)], cs[i].size)
+				run.Add("evaluations", 1)
+				if err != nil {
+					bad(step, "constructor error "+err.Error())
+					return
+				}
+				hs = append(hs, h)
+				if got := h.ComputeHash(msg); !bytes.Equal(got, want[i]) {
+					bad(step, "the new hasher does not compute KMAC128 under the key and customizer it was given")
+					return
+				}
+			}
+			// refill the buffers once more, then every hasher built on the way still computes its own function
+			for k := range kbuf {
+				kbuf[k], cbuf[k] = 0xEE, 0x77
+			}
+			for step, h := range hs {
+				h.Reset()
+				_, _ = h.Write(msg)
+				if got := h.SumHash(); !bytes.Equal(got, want[seq[step]]) {
+					bad(step, "a hasher built earlier changed after the caller refilled the buffers its constructor had read")
+					return
+				}
+			}
+			run.Distinct(fmt.Sprintf("ctorhist/%v", seq))
+		}
+	})
+	run.Set("kmac_constructor_histories", n*n*n)
 }
